@@ -109,6 +109,7 @@ type c13Env struct {
 	dir  string
 	bu   *binutils.Binutils
 	nseq int
+	sym  *c13SymEnv // symbolizer-history stream (c13_sym.go), created on first use
 }
 
 const c13FakeNM = "#!/bin/sh\n# fake nm for the C13 harness: prints the prepared table of the file named last\nfor a in \"$@\"; do f=\"$a\"; done\nexec cat \"$f.nm\"\n"
@@ -1262,7 +1263,7 @@ func (e *c13Env) runCase(cs *c13Case) {
 }
 
 func runC13(c *Ctx) {
-	c.Res.Rule = "layout streams: linker-like layouts (1–4 PT_LOAD + optional zero-filesz segment; first vaddr 0/non-zero; separate, packed (shared file page) or mixed; bss; Vaddr−Off up to 2^36; 4K/64K/2M segment alignment) × page-aligned biases (0, small, 2^32-ish, PIE/mmap-like, near 2^63) × page-aligned sub-ranges [v0,v1) of the owning segment's file image × addresses of the segment inside the mapping (first, last, middle, random, page edges, filesz edge); each case is checked against the Lean predicate Spec.LoaderLayout; non-trivial = ProgramHeadersForMapping must discriminate (≥2 PT_LOAD with file content) — distinct by canonical layout text. raw streams: boundary-rich arbitrary arguments (non-trivial = result is not the trivial empty/err case). nm: sorted tables with duplicate starts, zero sizes, data/function types (non-trivial = table has ≥2 symbols)."
+	c.Res.Rule = "layout streams: linker-like layouts (1–4 PT_LOAD + optional zero-filesz segment; first vaddr 0/non-zero; separate, packed (shared file page) or mixed; bss; Vaddr−Off up to 2^36; 4K/64K/2M segment alignment) × page-aligned biases (0, small, 2^32-ish, PIE/mmap-like, near 2^63) × page-aligned sub-ranges [v0,v1) of the owning segment's file image × addresses of the segment inside the mapping (first, last, middle, random, page edges, filesz edge); each case is checked against the Lean predicate Spec.LoaderLayout; non-trivial = ProgramHeadersForMapping must discriminate (≥2 PT_LOAD with file content) — distinct by canonical layout text. raw streams: boundary-rich arbitrary arguments (non-trivial = result is not the trivial empty/err case). nm: sorted tables with duplicate starts, zero sizes, data/function types (non-trivial = table has ≥2 symbols). symhist: one synthetic object opened at 2–4 page-aligned biases (several below the table span) in ONE Binutils instance, 12–27 interleaved SourceLine calls, through three tool chains (fast nm; addr2line+nm with llvm-symbolizer hidden; llvm-symbolizer) whose tools are table-driven fakes; nm names longer than addr2line names (.constprop.0 …); each answer checked against the containing function, the model and a fresh single-bias instance on a private file copy (non-trivial = ≥2 functions and ≥2 biases)."
 	e := newC13Env(c)
 	defer e.close()
 	if c.Replay != "" {
@@ -1271,12 +1272,23 @@ func runC13(c *Ctx) {
 			c.Res.HarnessError = err.Error()
 			return
 		}
+		if cs.Kind == "symhist" {
+			var sc c13SymCase
+			if err := c.LoadReplay(&sc); err != nil {
+				c.Res.HarnessError = err.Error()
+				return
+			}
+			e.runSymHist(&sc)
+			c.Res.Evaluations++
+			return
+		}
 		e.runCase(&cs)
 		c.Res.Evaluations++
 		return
 	}
 	root := NewRng(c.Seed)
 	rMain, r64, rOff, rRaw, rNM := root.Fork(), root.Fork(), root.Fork(), root.Fork(), root.Fork()
+	rSym := root.Fork()
 	nontrivLayout := func(cs *c13Case) bool {
 		k := 0
 		for _, s := range cs.Segs {
@@ -1360,6 +1372,8 @@ func runC13(c *Ctx) {
 		c.Res.Count("nm "+fmt.Sprint(cs.Syms, cs.Base), len(cs.Syms) >= 2)
 		e.runNM(cs)
 	}
+	// symbolizer histories: same file at several biases in one process, nm / addr2line+nm / llvm
+	e.runSymStreams(rSym)
 	if c.Tier == "thorough" {
 		e.runRealAll(root.Fork())
 	}
